@@ -177,7 +177,7 @@ func TestReplay(t *testing.T) {
 	c := raw.NewCluster(t)
 	evals, logs, nontrivial, fetches := 0, 0, 0, 0
 	for ci, cs := range cases {
-		if (ci+seed)%stride != 0 {
+		if int((uint32(ci)*2654435761)>>9)%stride != seed%stride { // a pseudo-random 1/stride slice, not every stride-th case
 			continue
 		}
 		logs++
@@ -264,6 +264,21 @@ func TestReplay(t *testing.T) {
 			switch {
 			case b.Ctrl != "none":
 				p := prods[b.Pid]
+				if !p.open { // a transaction ended without data: the partition is added, nothing is produced
+					req := kmsg.NewPtrAddPartitionsToTxnRequest()
+					req.TransactionalID = p.txid
+					req.ProducerID, req.ProducerEpoch = p.pid, p.epoch
+					rt := kmsg.NewAddPartitionsToTxnRequestTopic()
+					rt.Topic = topic
+					rt.Partitions = []int32{0}
+					req.Topics = append(req.Topics, rt)
+					ctx, cancel := raw.Ctx()
+					resp, err := req.RequestWith(ctx, c.Cl)
+					cancel()
+					if err != nil || resp.ErrorCode != 0 {
+						viol("addpartitions", fmt.Sprintf("AddPartitionsToTxn (empty transaction) failed: %v %+v", err, resp))
+					}
+				}
 				req := kmsg.NewPtrEndTxnRequest()
 				req.TransactionalID = p.txid
 				req.ProducerID, req.ProducerEpoch = p.pid, p.epoch
